@@ -145,9 +145,7 @@ Qed.
 Lemma set_value_spec : forall x r v nv, wf_range r -> set_value x r v = Ok nv -> spec_written x (v_value x) r v = Some nv.
 Proof.
   intros x r v nv Hwf H. unfold set_value in H. unfold spec_written.
-  set (v' := match v with
-             | VBs s => if rank_is_byte_array (v_rank x) && (v_dtype x =? 3) then to_byte_array s else v
-             | _ => v end) in *.
+  set (v' := to_stored (v_rank x) (v_dtype x) v) in *.
   destruct r as [|i|lo hi|l].
   - inversion H. reflexivity.
   - apply set_range_of_spec in H; [|exact Hwf]. destruct (v_value x) as [| | | |t vs]; try contradiction.
@@ -162,9 +160,7 @@ Qed.
 Lemma set_value_no_panic : forall x r v, set_value x r v <> Panic.
 Proof.
   intros x r v. unfold set_value.
-  set (v' := match v with
-             | VBs s => if rank_is_byte_array (v_rank x) && (v_dtype x =? 3) then to_byte_array s else v
-             | _ => v end).
+  set (v' := to_stored (v_rank x) (v_dtype x) v).
   destruct r; try discriminate; unfold set_range_of;
     destruct (negb (opt_eqb (array_type (v_value x)) (array_type v'))); try discriminate;
     destruct v'; try discriminate; destruct (v_value x); try discriminate.
@@ -184,23 +180,48 @@ Qed.
 (* a write of the model: what a Good status means, and that nothing else changes the variable *)
 Theorem write_good : forall subs x node attr range v x',
   write subs x node attr range v = Ok (0, x') ->
-  node = 1 /\ attr = 13 /\ user_can_write x = true /\
-  exists r w, parse_range (range_str range) = Some r /\ v = Some w /\ type_compatible subs x w = true /\
-              spec_written x (v_value x) r w = Some (v_value x') /\
-              v_ual x' = v_ual x /\ v_dtype x' = v_dtype x /\ v_rank x' = v_rank x.
+  node = 1 /\
+  ((attr = 13 /\ user_can_write x = true /\
+    exists r w, parse_range (range_str range) = Some r /\ v = Some w /\ type_compatible subs x w = true /\
+                spec_written x (v_value x) r w = Some (v_value x') /\ x' = with_value x (v_value x')) \/
+   (attr <> 13 /\ mask_allows x attr = true /\ range = None /\
+    exists w, v = Some w /\ set_attr x attr w = (0, x'))).
 Proof.
   intros subs x node attr range v x' H. unfold write in H.
   destruct (negb ((node =? 1) || (node =? 2))); [inversion H|].
   destruct (negb (valid_attr attr)); [inversion H|].
-  destruct ((node =? 1) && (attr =? 13) && user_can_write x) eqn:G; cbn [negb] in H; [|inversion H].
-  apply andb_true_iff in G as [G Hw]. apply andb_true_iff in G as [Hn Ha]. apply Z.eqb_eq in Hn, Ha.
-  destruct (parse_range (range_str range)) as [r|] eqn:P; [|inversion H].
-  destruct v as [w|]; [|inversion H].
-  destruct (type_compatible subs x w) eqn:T; cbn [negb] in H; [|inversion H].
-  destruct (set_value x r w) as [nv|c|] eqn:S; [|apply set_value_err in S; inversion H; lia|inversion H].
-  inversion H; subst x'. clear H.
-  repeat split; auto. exists r, w. repeat split; auto. cbn.
-  apply set_value_spec; [eapply parse_range_wf; exact P | exact S].
+  destruct (attr =? 13) eqn:A.
+  - apply Z.eqb_eq in A. subst attr.
+    destruct ((node =? 1) && user_can_write x) eqn:G; cbn [negb] in H; [|inversion H].
+    apply andb_true_iff in G as [Hn Hw]. apply Z.eqb_eq in Hn.
+    destruct (parse_range (range_str range)) as [r|] eqn:P; [|inversion H].
+    destruct v as [w|]; [|inversion H].
+    destruct (type_compatible subs x w) eqn:T; cbn [negb] in H; [|inversion H].
+    destruct (set_value x r w) as [nv|c|] eqn:S; [|apply set_value_err in S; inversion H; lia|inversion H].
+    inversion H; subst x'. clear H.
+    split; [exact Hn|]. left. split; [reflexivity|]. split; [exact Hw|]. exists r, w. repeat split; auto.
+    cbn. apply set_value_spec; [eapply parse_range_wf; exact P | exact S].
+  - apply Z.eqb_neq in A.
+    destruct ((node =? 1) && mask_allows x attr) eqn:G; cbn [negb] in H; [|inversion H].
+    apply andb_true_iff in G as [Hn Hm]. apply Z.eqb_eq in Hn.
+    destruct range as [rg|]; [inversion H|]. destruct v as [w|]; [|inversion H].
+    split; [exact Hn|]. right. repeat split; auto. exists w. split; [reflexivity|].
+    destruct (set_attr x attr w) as [st y] eqn:E. inversion H; subst. reflexivity.
+Qed.
+
+Lemma set_attr_status : forall x a w, 0 <= fst (set_attr x a w).
+Proof.
+  intros x a w. unfold set_attr.
+  repeat match goal with
+         | |- context [match ?v with _ => _ end] => destruct v
+         end; cbn; lia.
+Qed.
+Lemma set_attr_bad : forall x a w, fst (set_attr x a w) <> 0 -> snd (set_attr x a w) = x.
+Proof.
+  intros x a w. unfold set_attr.
+  repeat match goal with
+         | |- context [match ?v with _ => _ end] => destruct v
+         end; cbn; intros H; try reflexivity; congruence.
 Qed.
 
 Theorem write_total : forall subs x node attr range v, exists st x', write subs x node attr range v = Ok (st, x') /\ 0 <= st.
@@ -208,24 +229,35 @@ Proof.
   intros subs x node attr range v. unfold write.
   destruct (negb ((node =? 1) || (node =? 2))); [eexists _, _; split; [reflexivity | lia]|].
   destruct (negb (valid_attr attr)); [eexists _, _; split; [reflexivity | lia]|].
-  destruct (negb _); [eexists _, _; split; [reflexivity | lia]|].
-  destruct (parse_range (range_str range)) as [r|]; [|eexists _, _; split; [reflexivity | lia]].
-  destruct v as [w|]; [|eexists _, _; split; [reflexivity | lia]].
-  destruct (negb (type_compatible subs x w)); [eexists _, _; split; [reflexivity | lia]|].
-  destruct (set_value x r w) as [nv|c|] eqn:S.
-  - eexists _, _; split; [reflexivity | lia].
-  - exists c, x. split; [reflexivity|]. apply set_value_err in S. lia.
-  - exfalso. eapply set_value_no_panic. exact S.
+  destruct (attr =? 13).
+  - destruct (negb _); [eexists _, _; split; [reflexivity | lia]|].
+    destruct (parse_range (range_str range)) as [r|]; [|eexists _, _; split; [reflexivity | lia]].
+    destruct v as [w|]; [|eexists _, _; split; [reflexivity | lia]].
+    destruct (negb (type_compatible subs x w)); [eexists _, _; split; [reflexivity | lia]|].
+    destruct (set_value x r w) as [nv|c|] eqn:S.
+    + eexists _, _; split; [reflexivity | lia].
+    + exists c, x. split; [reflexivity|]. apply set_value_err in S. lia.
+    + exfalso. eapply set_value_no_panic. exact S.
+  - destruct (negb _); [eexists _, _; split; [reflexivity | lia]|].
+    destruct range; [eexists _, _; split; [reflexivity | lia]|].
+    destruct v as [w|]; [|eexists _, _; split; [reflexivity | lia]].
+    pose proof (set_attr_status x attr w). destruct (set_attr x attr w) as [st y]. eexists _, _; split; [reflexivity | exact H].
 Qed.
 
 Theorem write_rejected_unchanged : forall subs x node attr range v st x',
   write subs x node attr range v = Ok (st, x') -> st <> 0 -> x' = x.
 Proof.
   intros subs x node attr range v st x' H Hst. unfold write in H.
-  repeat match type of H with
-         | (if ?b then _ else _) = _ => destruct b
-         | match ?o with _ => _ end = _ => destruct o eqn:?
-         end; inversion H; subst; try reflexivity; congruence.
+  destruct (negb ((node =? 1) || (node =? 2))); [inversion H; reflexivity|].
+  destruct (negb (valid_attr attr)); [inversion H; reflexivity|].
+  destruct (attr =? 13).
+  - repeat match type of H with
+           | (if ?b then _ else _) = _ => destruct b
+           | match ?o with _ => _ end = _ => destruct o eqn:?
+           end; inversion H; subst; try reflexivity; congruence.
+  - destruct (negb _); [inversion H; reflexivity|]. destruct range; [inversion H; reflexivity|].
+    destruct v as [w|]; [|inversion H; reflexivity].
+    pose proof (set_attr_bad x attr w) as B. destruct (set_attr x attr w) as [s0 y]. inversion H; subst. apply B. exact Hst.
 Qed.
 
 Lemma range_of_err : forall v r c, range_of false v r = Err c -> c = 5.
@@ -248,9 +280,9 @@ Proof.
 Qed.
 
 (* reads *)
-Theorem read_total : forall hd x node attr range enc, exists rr, read false hd x node attr range enc = Ok rr /\ 0 <= rr_status rr.
+Theorem read_total : forall x node attr range enc, exists rr, read false x node attr range enc = Ok rr /\ 0 <= rr_status rr.
 Proof.
-  intros hd x node attr range enc. unfold read.
+  intros x node attr range enc. unfold read.
   destruct (negb ((node =? 1) || (node =? 2))); [eexists; split; [reflexivity | cbn; lia]|].
   destruct (negb (valid_attr attr)); [eexists; split; [reflexivity | cbn; lia]|].
   destruct (parse_range (range_str range)) as [r|] eqn:P; [|eexists; split; [reflexivity | cbn; lia]].
@@ -263,16 +295,16 @@ Proof.
       * eexists; split; [reflexivity | cbn; lia].
       * eexists; split; [reflexivity|]. cbn. apply range_of_err in R. lia.
       * exfalso. eapply range_of_no_panic; [eapply parse_range_wf; exact P | exact R].
-    + destruct (mem attr (var_attrs hd)); eexists; split; try reflexivity; cbn; lia.
+    + destruct (mem attr (var_attrs x)); eexists; split; try reflexivity; cbn; lia.
   - destruct (mem attr obj_attrs); eexists; split; try reflexivity; cbn; lia.
 Qed.
 
-Theorem read_good_value : forall hd x node range enc rr,
-  read false hd x node 13 range enc = Ok rr -> rr_status rr = 0 ->
+Theorem read_good_value : forall x node range enc rr,
+  read false x node 13 range enc = Ok rr -> rr_status rr = 0 ->
   node = 1 /\ user_can_read x = true /\
   exists r, parse_range (range_str range) = Some r /\ spec_read (v_value x) r = rr_value rr /\ rr_value rr <> None.
 Proof.
-  intros hd x node range enc rr H Hst. unfold read in H.
+  intros x node range enc rr H Hst. unfold read in H.
   destruct (negb ((node =? 1) || (node =? 2))); [inversion H; subst; discriminate|].
   destruct (negb (valid_attr 13)); [inversion H; subst; discriminate|].
   destruct (parse_range (range_str range)) as [r|] eqn:P; [|inversion H; subst; discriminate].
@@ -289,20 +321,20 @@ Proof.
   - cbn in H. inversion H; subst; discriminate.
 Qed.
 
-Theorem read_bad_no_value : forall hd x node attr range enc rr,
-  read false hd x node attr range enc = Ok rr -> rr_status rr <> 0 -> rr_value rr = None.
+Theorem read_bad_no_value : forall x node attr range enc rr,
+  read false x node attr range enc = Ok rr -> rr_status rr <> 0 -> rr_value rr = None.
 Proof.
-  intros hd x node attr range enc rr H Hst. unfold read in H.
+  intros x node attr range enc rr H Hst. unfold read in H.
   repeat match type of H with
          | (if ?b then _ else _) = _ => destruct b
          | match ?o with _ => _ end = _ => destruct o eqn:?
          end; inversion H; subst; cbn in *; try reflexivity; congruence.
 Qed.
 
-Theorem read_unreadable_not_good : forall hd x attr range enc rr,
-  read false hd x 1 attr range enc = Ok rr -> user_can_read x = false -> rr_status rr <> 0.
+Theorem read_unreadable_not_good : forall x attr range enc rr,
+  read false x 1 attr range enc = Ok rr -> user_can_read x = false -> rr_status rr <> 0.
 Proof.
-  intros hd x attr range enc rr H Hr. unfold read in H. rewrite Hr in H. cbn [Z.eqb Pos.eqb orb negb andb] in H.
+  intros x attr range enc rr H Hr. unfold read in H. rewrite Hr in H. cbn [Z.eqb Pos.eqb orb negb andb] in H.
   destruct (negb (valid_attr attr)); [inversion H; cbn; lia|].
   destruct (parse_range (range_str range)); inversion H; cbn; lia.
 Qed.
@@ -312,23 +344,20 @@ Lemma is_prefix_app : forall e rest, is_prefix e (e ++ rest) = true.
 Proof. induction e as [|a e IH]; intros rest; cbn; [reflexivity|]. rewrite Z.eqb_refl. apply IH. Qed.
 Lemma skipn_app_exact {A} : forall (e rest : list A), skipn (length e) (e ++ rest) = rest.
 Proof. induction e as [|a e IH]; intros rest; cbn; [reflexivity | apply IH]. Qed.
-Lemma var_eta : forall x, mk_var (v_ual x) (v_dtype x) (v_rank x) (v_value x) = x.
-Proof. intros []. reflexivity. Qed.
-
-Theorem oracle_ops_ok : forall ops subs hd x, oracle_ops subs x ops (run_ops false hd subs x ops) = true.
+Theorem oracle_ops_ok : forall ops subs x, oracle_ops subs x ops (run_ops false subs x ops) = true.
 Proof.
-  induction ops as [|o ops IH]; intros subs hd x; [reflexivity|].
+  induction ops as [|o ops IH]; intros subs x; [reflexivity|].
   destruct o as [node attr range enc | node attr range v]; cbn [run_ops oracle_ops].
-  - destruct (read_total hd x node attr range enc) as [rr [Hr H0]]. rewrite Hr.
+  - destruct (read_total x node attr range enc) as [rr [Hr H0]]. rewrite Hr.
     cbn [app]. rewrite (proj2 (Z.ltb_ge _ _) H0).
     destruct (attr =? 13) eqn:A.
     + apply Z.eqb_eq in A. subst attr.
       destruct (rr_status rr =? 0) eqn:S.
-      * apply Z.eqb_eq in S. destruct (read_good_value hd x node range enc rr Hr S) as [Hn [Hc [r [P [Hs Hv]]]]].
+      * apply Z.eqb_eq in S. destruct (read_good_value x node range enc rr Hr S) as [Hn [Hc [r [P [Hs Hv]]]]].
         subst node. rewrite Hc, P, Hs. cbn [Z.eqb Pos.eqb andb].
         destruct (rr_value rr) as [v|]; [|congruence].
         rewrite is_prefix_app, skipn_app_exact. cbn [andb]. apply IH.
-      * apply Z.eqb_neq in S. rewrite (read_bad_no_value hd x node 13 range enc rr Hr S). cbn [app]. apply IH.
+      * apply Z.eqb_neq in S. rewrite (read_bad_no_value x node 13 range enc rr Hr S). cbn [app]. apply IH.
     + cbn [app]. rewrite IH, andb_true_r. apply negb_true_iff.
       destruct (node =? 1) eqn:N; [|reflexivity]. apply Z.eqb_eq in N. subst node.
       destruct (user_can_read x) eqn:C; [reflexivity|]. cbn [negb andb].
@@ -337,9 +366,9 @@ Proof.
     rewrite (proj2 (Z.ltb_ge _ _) H0).
     destruct (st =? 0) eqn:S.
     + apply Z.eqb_eq in S. subst st.
-      destruct (write_good subs x node attr range v x' Hw) as [Hn [Ha [Hc [r [w [P [Hv [T [Hs [E1 [E2 E3]]]]]]]]]]].
-      subst node attr v. rewrite Hc, P, T, Hs. cbn [Z.eqb Pos.eqb andb].
-      rewrite <- E1, <- E2, <- E3, var_eta. apply IH.
+      destruct (write_good subs x node attr range v x' Hw) as [Hn [[Ha [Hc [r [w [P [Hv [T [Hs Hx]]]]]]]] | [Ha [Hm [Hr [w [Hv Hs]]]]]]].
+      * subst node attr v. rewrite Hc, P, T, Hs. cbn [Z.eqb Pos.eqb andb]. rewrite <- Hx. apply IH.
+      * subst node v. rewrite (proj2 (Z.eqb_neq _ _) Ha), Hm, Hs. cbn [Z.eqb Pos.eqb andb snd]. apply IH.
     + apply Z.eqb_neq in S. rewrite (write_rejected_unchanged subs x node attr range v st x' Hw S). apply IH.
 Qed.
 
@@ -348,29 +377,25 @@ Proof. intros c _ _. unfold oracle, run, run_with. apply oracle_ops_ok. Qed.
 
 
 (* ---- read after write, stated directly ---- *)
-Definition stored (x : var) (w : value) : value :=
-  match w with
-  | VBs s => if rank_is_byte_array (v_rank x) && (v_dtype x =? 3) then to_byte_array s else w
-  | _ => w
-  end.
+Definition stored (x : var) (w : value) : value := to_stored (v_rank x) (v_dtype x) w.
 
-Lemma read_whole : forall hd x range enc, user_can_read x = true -> enc_supported enc = true ->
+Lemma read_whole : forall x range enc, user_can_read x = true -> enc_supported enc = true ->
   parse_range (range_str range) = Some NNone ->
-  read false hd x 1 13 range enc = Ok (mk_rres 0 (Some (v_value x))).
-Proof. intros hd x range enc Hr He P. unfold read. rewrite P, Hr, He. reflexivity. Qed.
+  read false x 1 13 range enc = Ok (mk_rres 0 (Some (v_value x))).
+Proof. intros x range enc Hr He P. unfold read. rewrite P, Hr, He. reflexivity. Qed.
 
 (* a successful write of the whole value is what a following read of the whole value returns *)
-Theorem read_after_write_whole : forall subs hd x range w x' range2 enc,
+Theorem read_after_write_whole : forall subs x range w x' range2 enc,
   write subs x 1 13 range (Some w) = Ok (0, x') ->
   parse_range (range_str range) = Some NNone ->
   user_can_read x = true -> enc_supported enc = true -> parse_range (range_str range2) = Some NNone ->
-  read false hd x' 1 13 range2 enc = Ok (mk_rres 0 (Some (stored x w))).
+  read false x' 1 13 range2 enc = Ok (mk_rres 0 (Some (stored x w))).
 Proof.
-  intros subs hd x range w x' range2 enc Hw P Hr He P2.
-  destruct (write_good subs x 1 13 range (Some w) x' Hw) as [_ [_ [_ [r [w' [P' [Hv [_ [Hs [E1 _]]]]]]]]]].
+  intros subs x range w x' range2 enc Hw P Hr He P2.
+  destruct (write_good subs x 1 13 range (Some w) x' Hw) as [_ [[_ [_ [r [w' [P' [Hv [_ [Hs Hx]]]]]]]] | [Ha _]]]; [|congruence].
   rewrite P in P'. inversion P'; subst r. inversion Hv; subst w'. cbn in Hs. inversion Hs as [Hs'].
-  rewrite (read_whole hd x' range2 enc); [rewrite <- Hs'; reflexivity | | exact He | exact P2].
-  unfold user_can_read in *. rewrite E1. exact Hr.
+  rewrite (read_whole x' range2 enc); [rewrite <- Hs'; reflexivity | | exact He | exact P2].
+  rewrite Hx. unfold user_can_read in *. cbn. exact Hr.
 Qed.
 
 (* positions of a list *)
@@ -403,19 +428,20 @@ Qed.
 (* a successful write of [src] at the index range lo:hi of an array, then a read of the same range:
    element k of what is read is src[k], for every k that the range, the written array and the
    stored array cover *)
-Theorem read_after_write_range : forall subs hd x range lo hi ot src t vs x' enc,
+Theorem read_after_write_range : forall subs x range lo hi ot src t vs x' enc,
   write subs x 1 13 range (Some (VArr ot src)) = Ok (0, x') ->
   parse_range (range_str range) = Some (NRange lo hi) -> v_value x = VArr t vs ->
   user_can_read x = true -> enc_supported enc = true ->
-  exists l, read false hd x' 1 13 range enc = Ok (mk_rres 0 (Some (VArr t l))) /\
+  exists l, read false x' 1 13 range enc = Ok (mk_rres 0 (Some (VArr t l))) /\
             forall k e, (k < length src)%nat -> lo + Z.of_nat k <= hi -> lo + Z.of_nat k < len vs ->
                         nth_error src k = Some e -> nth_error l k = Some e.
 Proof.
-  intros subs hd x range lo hi ot src t vs x' enc Hw P Hv Hr He.
-  destruct (write_good subs x 1 13 range _ x' Hw) as [_ [_ [_ [r [w' [P' [Hw' [_ [Hs [E1 _]]]]]]]]]].
+  intros subs x range lo hi ot src t vs x' enc Hw P Hv Hr He.
+  destruct (write_good subs x 1 13 range _ x' Hw) as [_ [[_ [_ [r [w' [P' [Hw' [_ [Hs Hx]]]]]]]] | [Ha _]]]; [|congruence].
   rewrite P in P'. inversion P'; subst r. inversion Hw'; subst w'. clear P' Hw'.
+  assert (E1 : v_ual x' = v_ual x) by (rewrite Hx; reflexivity).
   pose proof (parse_range_wf _ _ P) as Hwf. cbn in Hwf.
-  unfold spec_written in Hs. cbn [stored] in Hs. rewrite Hv in Hs.
+  unfold spec_written in Hs. cbn [to_stored] in Hs. rewrite Hv in Hs.
   destruct (lo <? len vs) eqn:L; [|discriminate]. apply Z.ltb_lt in L. inversion Hs as [Hx']. clear Hs.
   set (ov := spec_overwrite vs src lo hi) in *.
   assert (Hlen : len ov = len vs) by (unfold len, ov; rewrite spec_overwrite_length; reflexivity).
@@ -439,8 +465,18 @@ Proof.
     cbn [orb]. rewrite Nat2Z.id, Hsrc. reflexivity.
 Qed.
 
+(* a successful write of the UserAccessLevel attribute takes effect for the following value
+   reads and writes *)
+Theorem ual_write_effective : forall subs x n x',
+  write subs x 1 18 None (Some (VNum 3 n)) = Ok (0, x') ->
+  mask_allows x 18 = true /\ user_can_read x' = Z.testbit n 0 /\ user_can_write x' = Z.testbit n 1 /\ v_value x' = v_value x.
+Proof.
+  intros subs x n x' H. destruct (write_good subs x 1 18 None _ x' H) as [_ [[A _] | [_ [Hm [_ [w [Hv Hs]]]]]]]; [discriminate|].
+  inversion Hv; subst w. cbn in Hs. inversion Hs; subst x'. repeat split; auto.
+Qed.
+
 (* the code before the fix panics on a range that splits a character *)
-Definition w_utf8 : case := mk_case [] 3 3 12 (-1) (VStr (Some [97; 195; 169])) [Read 1 13 (Some [48; 58; 49]) 0].
+Definition w_utf8 : case := mk_case [] 3 3 12 (-1) (-1) (VStr (Some [97; 195; 169])) [Read 1 13 (Some [48; 58; 49]) 0].
 Theorem legacy_refuted : exists c, valid c /\ In (-2) (run_with true c) /\ oracle c (run_with true c) = false.
 Proof. exists w_utf8. split; [split; reflexivity|]. split; [left; reflexivity | vm_compute; reflexivity]. Qed.
 Example w_utf8_fixed : run w_utf8 = [5; -1].
